@@ -84,6 +84,22 @@ func (p *Prog) VerifyFunc(fi *FuncInfo, fc *FuncContract) (res *FuncResult) {
 	}()
 	x.h.ImplOf = func(v *Term, t types.Type) *Term { return x.implements(x.dyn(v), t) }
 	x.prepass(fi.Body)
+	// vacuity guard: a call hook that names no call of the body would be silently true
+	for _, at := range fc.Ats {
+		n := 0
+		for name, k := range x.callOrd {
+			if atMatches(at.Callee, name) && k > n {
+				n = k
+			}
+		}
+		if n == 0 || at.Nth > n {
+			src := at.Callee
+			if at.Clause != nil {
+				src += ": " + at.Clause.Src
+			}
+			panic(specFail{fmt.Sprintf("call hook refers to a call that is not in the body (call %d of %s)", at.Nth, src)})
+		}
+	}
 	s := &State{vars: map[types.Object]Value{}, mem: map[string]*Mem{}, ghost: map[string]Value{}, typed: map[*Term]bool{}}
 	s.allocTop = c.Const("top0", SInt)
 	s.Assume(c.Ge(s.allocTop, c.Int(0)))
